@@ -268,6 +268,17 @@ func runGen(in *genInput) kit.Case {
 		var got []string
 		objLeaves(obj, &got)
 		same := parses && reflect.DeepEqual(skeleton(obj), skeleton(tplObj.Object))
+		if parses && in.Garbage == "" {
+			// the numbers and booleans of the generated document (the harness's own tree, not what katib's decoder made of it)
+			var wantSc, gotSc []string
+			scalars(in.Doc.toObj(), &wantSc)
+			scalars(obj, &gotSc)
+			sort.Strings(wantSc)
+			sort.Strings(gotSc)
+			if !reflect.DeepEqual(wantSc, gotSc) && c.GoViol == "" {
+				c.GoViol = fmt.Sprintf("the run spec does not carry the template's numbers and booleans unchanged: template %v, run spec %v", wantSc, gotSc)
+			}
+		}
 		impl = fmt.Sprintf("(Ok (GObs %s %s %s %s))", kit.ListOf(got, kit.Str), kit.Str(rs.GetName()), kit.Str(rs.GetNamespace()), kit.Bool(same))
 		c.Observed = rs.Object
 	}
